@@ -18,6 +18,7 @@ ensures
     (target_resolution < -1 || target_resolution > 29) ==> res is Err,                                          // [C14:uncompact.rejects-range]
     (exists|i: int| 0 <= i < cells@.len() && res_of(#[trigger] cells@[i]) > target_resolution) ==> res is Err,   // [C09:uncompact.err-if-finer]
     res is Ok ==> res->Ok_0@ == flat(cells@, target_resolution as int, cells@.len() as int),                     // [C09:uncompact.value]
+    res is Ok ==> (forall|k: int| 0 <= k < res->Ok_0@.len() ==> canonical(#[trigger] res->Ok_0@[k]) && res_of(res->Ok_0@[k]) == target_resolution),   // [C05,C14:uncompact.canonical-output]
     (-1 <= target_resolution <= 29 && forall|i: int| 0 <= i < cells@.len() ==> decodable(#[trigger] cells@[i]) && res_of(cells@[i]) <= target_resolution) ==> res is Ok,   // [C09:uncompact.ok-iff-none-finer]
 //@at entry
 hide(enc); hide(dec); hide(decodable); hide(probe); hide(kids_ids);
@@ -34,6 +35,7 @@ proof {
 //@loop 2
 invariant
     result@ == flat(cells@, target_resolution as int, i as int),
+    forall|j: int| 0 <= j < i ==> decodable(#[trigger] cells@[j]),
 //@at loop 2 body-start
 proof {
     lemma_res_range(cell, 29);
@@ -43,6 +45,12 @@ proof {
 //@at loop 2 body-end
 proof {
     assert(result@ =~= flat(cells@, target_resolution as int, i as int) + self_or_kids(cell, target_resolution as int));
+}
+//@at before-tail
+proof {
+    // every input decoded (otherwise a `?` above returned Err): the outputs are canonical IDs of the target resolution
+    assert(forall|i: int| 0 <= i < cells@.len() ==> decodable(#[trigger] cells@[i]));
+    thm_flat_canonical(cells@, target_resolution as int, cells@.len() as int);
 }
 //@end
 
